@@ -144,7 +144,10 @@ def rule_r2(ctx):
                 if r is None:
                     continue
                 what = f"{kind}|order|{e.path}"
-                if r < last_rank:
+                if r < last_rank and exclusive(e, last_ev):
+                    # the two never run in the same execution (branches of one test): no order between them
+                    rr.ok(what, sample={"rule": "C07-R2", "statement": kind, "hole": e.path, "verdict": f"exclusive with {last_ev.path}"})
+                elif r < last_rank:
                     rr.fail(
                         f"C07-R2|{kind}|{e.path}|after|{_prefix(last_ev.path, table)}",
                         f"{ci.name} ({e.site}): {e.path} is evaluated after {last_ev.path}, Python evaluates it before [context: {short_ctx(pr, 120)}]",
@@ -376,6 +379,71 @@ def rule_r5(ctx):
     return rr
 
 
+def rule_r6(ctx):
+    """The truth of a user expression is asked at most once per evaluation.  In `a and b` / `a or b`
+    the operand that short-circuits BECOMES the value of the operation; when that value is itself a
+    truth-tested operand of an enclosing and/or/not/if-else, `bool(a)` runs a second time:
+    `test and (body,) or orelse` calls `__bool__`/`__len__` of a false `test` twice."""
+    from ..vals import PList, TNode, Transf, UNode
+
+    rr = RuleResult("C07-R6", "no user expression has its truth value asked twice (a short-circuit result that is tested again)")
+    rr.exhaustive = True
+    rr.floor = 10
+    T = ctx.tmpl
+    seen = set()
+
+    def walk(v, n, pr, ci, klabel, top):
+        """n = how many times the VALUE of v may be truth-tested by the operations above it."""
+        if isinstance(v, (Transf, UNode)):
+            if n >= 2:
+                u = v if isinstance(v, UNode) else v.inner
+                hole = norm_path(u.short_path()) if hasattr(u, "short_path") else "?"
+                key = (klabel, hole)
+                if key not in seen:
+                    seen.add(key)
+                    rr.fail(
+                        f"C07-R6|{klabel}|{hole}|truth-tested-twice",
+                        f"{ci.name}.get_result ({top.site}): the value of {hole} is truth-tested by an and/or whose result - that same value, when it short-circuits - is truth-tested again by the enclosing operation: `if t: ... else: ...` with if_style=short_circuit becomes `t and (body,) or orelse`, a false `t` has `__bool__`/`__len__` called twice (a test object that prints, counts or consumes something) [context: {short_ctx(pr, 100)}]",
+                        where=str(top.site), what=f"{klabel}|{hole}",
+                    )
+            return
+        if isinstance(v, PList):
+            for i in v.items:
+                walk(i, 0, pr, ci, klabel, top)
+            return
+        if not isinstance(v, TNode):
+            inner = getattr(v, "items", None)
+            if isinstance(inner, list):
+                for i in inner:
+                    walk(i, 0, pr, ci, klabel, top)
+            return
+        if v.kind == "BoolOp":
+            vals = v.fields.get("values")
+            items = vals.items if isinstance(vals, PList) else []
+            for i, o in enumerate(items):
+                walk(o, n + 1 if i < len(items) - 1 else n, pr, ci, klabel, v)
+            return
+        if v.kind == "IfExp":
+            walk(v.fields.get("test"), 1, pr, ci, klabel, v)
+            walk(v.fields.get("body"), n, pr, ci, klabel, v)
+            walk(v.fields.get("orelse"), n, pr, ci, klabel, v)
+            return
+        if v.kind == "UnaryOp" and isinstance(v.fields.get("op"), TNode) and v.fields["op"].kind == "Not":
+            walk(v.fields.get("operand"), 1, pr, ci, klabel, v)
+            return
+        for f, x in v.fields.items():
+            walk(x, 0, pr, ci, klabel, v)
+
+    for ci, kinds, entry in T.all_pending():
+        rr.instances += 1
+        for pr in entry.ok_paths():
+            klabel = kinds_label(pr.extra["node"].kinds)
+            walk(pr.result, 0, pr, ci, klabel, pr.result if isinstance(pr.result, TNode) else TNode("?", {}, "?"))
+    if not seen:
+        rr.ok("templates", sample={"rule": "C07-R6", "verdict": "no short-circuit result of a user test is tested again"})
+    return rr
+
+
 def path_events_of(t):
     from ..semwalk import events_of
 
@@ -391,4 +459,4 @@ def rule_c05_protocol(ctx):
     return [c05.rule_r1(ctx), c05.rule_r23(ctx), c05.rule_r6(ctx)]
 
 
-RULES = [("C07-R1", rule_r1), ("C07-R2", rule_r2), ("C07-R3", rule_r3), ("C07-R4", rule_r4), ("C07-R5", rule_r5), ("C05-protocol", rule_c05_protocol)]
+RULES = [("C07-R1", rule_r1), ("C07-R2", rule_r2), ("C07-R3", rule_r3), ("C07-R4", rule_r4), ("C07-R5", rule_r5), ("C07-R6", rule_r6), ("C05-protocol", rule_c05_protocol)]
